@@ -1,16 +1,14 @@
 import Irismod.Props.C10
 open Irismod Irismod.Sdk Irismod.Token Irismod.Props.C10
+#print axioms minted_le_burned_value
+#print axioms full_value
 #print axioms burned_le_offered
 #print axioms minted_nonneg
-#print axioms minted_le_offered_value
 #print axioms exact_at_ratio_one
-#print axioms rounding_witness
-#print axioms ratio_above_one_witness
-#print axioms negative_burn_witness
-#print axioms truncated_burn_witness
-#print axioms not_FullValue
-#print axioms value_partial_ratio_le_one
-#print axioms violations_are_classified
+#print axioms former_rounding_witness
+#print axioms former_ratio_above_one_witness
+#print axioms former_negative_burn_witness
+#print axioms former_truncated_burn_witness
 #print axioms sound_step
 #print axioms sound_run
 #print axioms swap_to_erc20_exact
